@@ -19,6 +19,7 @@ type Obligation struct {
 	Fn     string
 	Pos    string
 	SMT    string // full query; unsat = discharged
+	SMTLight string // same without quantifier-instantiation axioms (tried first)
 	Trivial bool  // goal folded to true
 	Trace  []string
 	Goal   string
@@ -465,14 +466,14 @@ func (e *Exec) emit(s *State, kind string, goal *Term, pos token.Pos) {
 		e.obls = append(e.obls, ob)
 		return
 	}
-	ob.SMT = e.buildQuery(s, []*Term{e.c.Not(goal)})
+	ob.SMT, ob.SMTLight = e.buildQuery(s, []*Term{e.c.Not(goal)})
 	e.obls = append(e.obls, ob)
 }
 
 // emitProbe records a satisfiability probe (expected sat) for vacuity detection.
 func (e *Exec) emitProbe(s *State, kind string) {
 	ob := &Obligation{Name: e.oblName(kind), Kind: kind, Fn: e.fnKey(), Probe: true}
-	ob.SMT = e.buildQuery(s, nil)
+	ob.SMT, _ = e.buildQuery(s, nil)
 	ob.Trace = append([]string(nil), s.trace...)
 	e.obls = append(e.obls, ob)
 }
